@@ -231,6 +231,7 @@ class Ex:
         self._scopes = []
         self._rec_depth = 0
         self.rename_map = {}
+        self._pure_memo = {}
         self._solver_broken = False
         self._keep = []                 # keeps z3 asts alive whose ids are used as keys
         self.no_ctx = False
@@ -322,6 +323,14 @@ class Ex:
         self.dpos += 1
         self.assume(c if d else z3.Not(c))
         return d
+
+    def may_raise(self, cond):
+        """branch on the condition of an implicit exception (None dereference, index out of range,
+        arity ...).  Specification text is total: it never takes such a branch (and must not fork or
+        depend on the path condition, which would also poison the memoisation of spec evaluations)."""
+        if self.spec_mode:
+            return False
+        return self.branch(cond)
 
     def oblige(self, name, goal, kind="post", info=None):
         if isinstance(goal, bool):
@@ -759,18 +768,18 @@ class Ex:
             v = v.val
         if isinstance(v, VSeq):
             ln = v.length()
-            if not self.branch(ln == n):
+            if not self.may_raise(ln == n):
                 self.raise_(ValueError, node=node)
             return [self.world.speclib.seq_index(self, v, VInt(i), checked=False) for i in range(n)]
         if isinstance(v, VOpt):
-            if self.branch(v.isnone):
+            if self.may_raise(v.isnone):
                 self.raise_(TypeError, node=node)
             return self.unpack(v.val, n, node)
         raise Unsupported("unpack of %r" % (v,))
 
     def setattr(self, obj, name, v, raw=False):
         if isinstance(obj, VOpt):
-            if self.branch(obj.isnone):
+            if self.may_raise(obj.isnone):
                 self.raise_(AttributeError)
             obj = obj.val
         if isinstance(obj, VObj):
@@ -1289,7 +1298,7 @@ class Ex:
             if isinstance(op, ast.Mult):
                 return VInt(x * y)
             if isinstance(op, (ast.FloorDiv, ast.Mod)):
-                if self.branch(y == 0):
+                if self.may_raise(y == 0):
                     self.raise_(ZeroDivisionError, node=node)
                 # Python floors (result has the divisor's sign); SMT-LIB div/mod are euclidean and
                 # coincide with floor for positive divisors: for y < 0 use (-x) div (-y).
@@ -1342,7 +1351,7 @@ class Ex:
             return c if isinstance(op, ast.In) else z3.Not(c)
         if isinstance(a, VOpt) or isinstance(b, VOpt):
             for o in (a, b):
-                if isinstance(o, VOpt) and self.branch(o.isnone):
+                if isinstance(o, VOpt) and self.may_raise(o.isnone):
                     self.raise_(TypeError, node=node)
             a = a.val if isinstance(a, VOpt) else a
             b = b.val if isinstance(b, VOpt) else b
@@ -1385,7 +1394,7 @@ class Ex:
                 # specifications are total: e.attr on a possibly-None value denotes the attribute
                 # of the underlying value (unspecified when it is None)
                 pass
-            elif self.branch(obj.isnone):
+            elif self.may_raise(obj.isnone):
                 self.raise_(AttributeError, node=node)
             obj = obj.val
         if obj is NONE:
@@ -1566,7 +1575,7 @@ class Ex:
             if isinstance(f.obj, type) and issubclass(f.obj, BaseException):
                 return VExc(f.obj, args, node)
         if isinstance(f, VOpt):
-            if self.branch(f.isnone):
+            if self.may_raise(f.isnone):
                 self.raise_(TypeError, node=node)
             return self.call(f.val, args, kwargs, node)
         raise Unsupported("call of %r" % (f,))
@@ -1691,11 +1700,49 @@ class Ex:
             return VTuple([self.ite(c, x, y) for x, y in zip(a.items, b.items)])
         raise Unsupported("ite merge of %r and %r" % (a, b))
 
+    def _memo_key(self, v):
+        if isinstance(v, (VInt, VBool)):
+            t = z3.simplify(v.t)
+            self._keep.append(t)
+            return ("t", t.get_id())
+        if v is NONE:
+            return ("none",)
+        if isinstance(v, VSeq):
+            if v.pyval is not None and not isinstance(v.pyval, list):
+                return ("c", v.kind, v.pyval)
+            if v.view is not None:
+                ids = []
+                for x in v.view:
+                    x = z3.simplify(x)
+                    self._keep.append(x)
+                    ids.append(x.get_id())
+                return ("v", v.kind, tuple(ids))
+            if v._t is None:
+                return None
+            self._keep.append(v._t)         # ids are only unique among live terms
+            return ("s", v.kind, str(v.ety), v._t.get_id())
+        if isinstance(v, VTuple):
+            ks = [self._memo_key(x) for x in v.items]
+            return None if any(k is None for k in ks) else ("tu", tuple(ks))
+        if isinstance(v, VOpt):
+            k = self._memo_key(v.val)
+            n_ = z3.simplify(v.isnone)
+            self._keep.append(n_)
+            return None if k is None else ("o", n_.get_id(), k)
+        if isinstance(v, VPy):
+            return ("py", id(v.obj))
+        return None         # mutable objects: not memoised
+
     def pure_call(self, f, args, kwargs, norec=False):
         if not norec:
             rec = self.world.speclib.rec_spec(self, f, args, kwargs)
             if rec is not None:
                 return rec
+        # (a per-path memoisation of pure spec evaluations was tried and abandoned: with it the vacuity
+        # probe of C18 became refutable, i.e. some cached result was context dependent; see DESIGN)
+        return self._pure_call(f, args, kwargs)
+
+    def _pure_call(self, f, args, kwargs):
         vals = self.bind_args(f, args, kwargs)
         fr = Frame(f, f.closure)
         fr.vars.update(vals)
